@@ -123,6 +123,10 @@ let spec_of (kind : string) (text : n list) (ann : string) : string =
   | ["bnum"; q; bs] ->
     let bs = cps_of bs in
     if text = spell_bytes (n_of_hex q) bs then "Y:" ^ show_cps bs else "MISMATCH"
+  | ["dyad"; bits] ->
+    (match b64_of_bits (z_of_hex bits) with
+     | B754_finite (false, m, e) when text = spell_dyadic m e -> "F:" ^ pad16 bits
+     | _ -> "MISMATCH")
   | ["sym"] -> "M:" ^ show_cps text
   | "flt" :: _ -> "-"
   | _ -> ignore kind; failwith ("bad annotation " ^ ann)
